@@ -6,4 +6,944 @@ Import ListNotations.
 Open Scope Z_scope.
 Ltac Zify.zify_post_hook ::= Z.div_mod_to_equations.
 
-Lemma placeholder : True. Proof. exact I. Qed.
+(* ------------------------------------------------------------------------------------------ *)
+(* slices                                                                                      *)
+(* ------------------------------------------------------------------------------------------ *)
+Lemma zlen_nonneg {A} (l : list A) : 0 <= zlen l.
+Proof. unfold zlen. lia. Qed.
+
+Lemma set_nth_some {A} (l : list A) n v : (n < length l)%nat -> exists l', set_nth l n v = Some l'.
+Proof.
+  revert n. induction l as [|x r IH]; intros n H; cbn in H; [lia|].
+  destruct n; cbn; [eauto|]. destruct (IH n ltac:(lia)) as [l' ->]. eauto.
+Qed.
+
+Lemma set_nth_none {A} (l : list A) n v : (length l <= n)%nat -> set_nth l n v = None.
+Proof.
+  revert n. induction l as [|x r IH]; intros n H; cbn in *; [reflexivity|].
+  destruct n; [lia|]. rewrite IH by lia. reflexivity.
+Qed.
+
+Lemma set_nth_length {A} (l l' : list A) n v : set_nth l n v = Some l' -> length l' = length l.
+Proof.
+  revert n l'. induction l as [|x r IH]; intros n l' H; cbn in H; [discriminate|].
+  destruct n; [inversion H; reflexivity|].
+  destruct (set_nth r n v) eqn:E; [|discriminate]. inversion H; subst. cbn. f_equal. eapply IH; eauto.
+Qed.
+
+Lemma set_nth_nth_same {A} (l l' : list A) n v : set_nth l n v = Some l' -> nth_error l' n = Some v.
+Proof.
+  revert n l'. induction l as [|x r IH]; intros n l' H; cbn in H; [discriminate|].
+  destruct n; [inversion H; reflexivity|].
+  destruct (set_nth r n v) eqn:E; [|discriminate]. inversion H; subst. cbn. eapply IH; eauto.
+Qed.
+
+Lemma set_nth_nth_other {A} (l l' : list A) n m v : set_nth l n v = Some l' -> n <> m -> nth_error l' m = nth_error l m.
+Proof.
+  revert n m l'. induction l as [|x r IH]; intros n m l' H Hne; cbn in H; [discriminate|].
+  destruct n.
+  - inversion H; subst. destruct m; [lia|reflexivity].
+  - destruct (set_nth r n v) eqn:E; [|discriminate]. inversion H; subst.
+    destruct m; [reflexivity|]. cbn. eapply IH; eauto.
+Qed.
+
+Lemma zset_some {A} (l : list A) i v : 0 <= i < zlen l -> exists l', zset l i v = Some l'.
+Proof.
+  intros H. unfold zset, zlen in *.
+  destruct ((i <? 0) || (Z.of_nat (length l) <=? i)) eqn:E; [lia|].
+  apply set_nth_some. lia.
+Qed.
+
+Lemma zset_none {A} (l : list A) i v : ~ (0 <= i < zlen l) -> zset l i v = None.
+Proof.
+  intros H. unfold zset, zlen in *.
+  destruct ((i <? 0) || (Z.of_nat (length l) <=? i)) eqn:E; [reflexivity|lia].
+Qed.
+
+Lemma zset_inv {A} (l l' : list A) i v : zset l i v = Some l' -> 0 <= i < zlen l /\ zlen l' = zlen l.
+Proof.
+  unfold zset, zlen. destruct ((i <? 0) || (Z.of_nat (length l) <=? i)) eqn:E; [discriminate|].
+  intros H. apply set_nth_length in H. lia.
+Qed.
+
+Lemma zget_some {A} (l : list A) i : 0 <= i < zlen l -> exists x, zget l i = Some x.
+Proof.
+  intros H. unfold zget, zlen in *.
+  destruct ((i <? 0) || (Z.of_nat (length l) <=? i)) eqn:E; [lia|].
+  destruct (nth_error l (Z.to_nat i)) eqn:N; [eauto|]. apply nth_error_None in N. lia.
+Qed.
+
+Lemma zget_inv {A} (l : list A) i x : zget l i = Some x -> 0 <= i < zlen l.
+Proof.
+  unfold zget, zlen. destruct ((i <? 0) || (Z.of_nat (length l) <=? i)) eqn:E; [discriminate|]. lia.
+Qed.
+
+Lemma zget_none {A} (l : list A) i : ~ (0 <= i < zlen l) -> zget l i = None.
+Proof.
+  intros H. unfold zget, zlen in *.
+  destruct ((i <? 0) || (Z.of_nat (length l) <=? i)) eqn:E; [reflexivity|lia].
+Qed.
+
+Lemma zget_zset_same {A} (l l' : list A) i v : zset l i v = Some l' -> zget l' i = Some v.
+Proof.
+  intros H. pose proof (zset_inv _ _ _ _ H) as [Hi Hl].
+  unfold zset in H. unfold zget. rewrite Hl.
+  destruct ((i <? 0) || (zlen l <=? i)) eqn:E; [discriminate|].
+  eapply set_nth_nth_same; eauto.
+Qed.
+
+Lemma zget_zset_other {A} (l l' : list A) i j v : zset l i v = Some l' -> i <> j -> zget l' j = zget l j.
+Proof.
+  intros H Hne. pose proof (zset_inv _ _ _ _ H) as [Hi Hl].
+  unfold zset in H. unfold zget. rewrite Hl.
+  destruct ((i <? 0) || (zlen l <=? i)) eqn:E; [discriminate|].
+  destruct ((j <? 0) || (zlen l <=? j)) eqn:E2; [reflexivity|].
+  eapply set_nth_nth_other; eauto. lia.
+Qed.
+
+(* ------------------------------------------------------------------------------------------ *)
+(* (b) ValueStack: totality and the invariant len <= capacity                                  *)
+(* ------------------------------------------------------------------------------------------ *)
+Definition vinv (cap : Z) (s : vstack) : Prop := zlen (vals s) = cap /\ 0 <= vlen s <= cap.
+
+(* a method is total and keeps the invariant *)
+Definition tp {A} (cap : Z) (m : M A) : Prop :=
+  forall s, vinv cap s -> exists s' o, m s = Some (s', o) /\ vinv cap s'.
+
+Lemma tp_ret {A} cap (a : A) : tp cap (ret a).
+Proof. intros s H. unfold ret. eauto. Qed.
+Lemma tp_fail {A} cap e : tp cap (@fail A e).
+Proof. intros s H. unfold fail. eauto. Qed.
+Lemma tp_bind {A B} cap (m : M A) (k : A -> M B) : tp cap m -> (forall a, tp cap (k a)) -> tp cap (bind m k).
+Proof.
+  intros Hm Hk s H. unfold bind. destruct (Hm s H) as (s' & o & -> & H').
+  destruct o as [a|e]; [apply Hk; exact H'|eauto].
+Qed.
+
+Section VS.
+  Variable cap : Z.
+  Hypothesis Hcap : cap <= isize_max.
+
+  Lemma tp_push v : tp cap (vs_push v).
+  Proof.
+    intros s [Hl Hn]. unfold vs_push.
+    destruct (Z.eq_dec (vlen s) cap) as [E|E].
+    - rewrite zset_none by lia. eexists _, _. split; [reflexivity|]. split; assumption.
+    - destruct (zset_some (vals s) (vlen s) v ltac:(lia)) as [vs' Hs]. rewrite Hs.
+      apply zset_inv in Hs. unfold add_usize. unfold isize_max, usize_max in *.
+      destruct (18446744073709551615 <? vlen s + 1) eqn:Eo; [lia|].
+      eexists _, _. split; [reflexivity|]. split; cbn; lia.
+  Qed.
+
+  Lemma write_at_length vs i l : length (write_at vs i l) = length vs.
+  Proof.
+    revert vs i. induction l as [|x r IH]; intros vs i; cbn; [reflexivity|].
+    destruct (set_nth vs i x) eqn:E; [|reflexivity]. rewrite IH. eapply set_nth_length; eauto.
+  Qed.
+
+  Lemma tp_push_list l : zlen l <= isize_max -> tp cap (vs_push_list l).
+  Proof.
+    intros Hll s [Hl Hn]. unfold vs_push_list. pose proof (zlen_nonneg l).
+    unfold add_usize, isize_max, usize_max in *.
+    destruct (18446744073709551615 <? vlen s + zlen l) eqn:Eo; [lia|].
+    destruct ((vlen s + zlen l <? vlen s) || (zlen (vals s) <? vlen s + zlen l)) eqn:E.
+    - eexists _, _. split; [reflexivity|]. split; assumption.
+    - eexists _, _. split; [reflexivity|]. split; cbn.
+      + unfold zlen in *. rewrite write_at_length. exact Hl.
+      + lia.
+  Qed.
+
+  Lemma peek_some s : vinv cap s -> 0 < vlen s -> exists v, vs_peek s = Some v.
+  Proof.
+    intros [Hl Hn] Hp. unfold vs_peek. destruct (0 <? vlen s) eqn:E; [|lia].
+    apply zget_some. lia.
+  Qed.
+  Lemma peek_none s : vlen s <= 0 -> vs_peek s = None.
+  Proof. intros H. unfold vs_peek. destruct (0 <? vlen s) eqn:E; [lia|reflexivity]. Qed.
+  Lemma peek_pos s v : vs_peek s = Some v -> 0 < vlen s.
+  Proof. unfold vs_peek. destruct (0 <? vlen s) eqn:E; [lia|discriminate]. Qed.
+
+  Lemma tp_pop ped : tp cap (vs_pop ped).
+  Proof.
+    intros s H. unfold vs_pop. destruct (vs_peek s) as [v|] eqn:P.
+    - apply peek_pos in P. destruct H as [Hl Hn]. unfold sub_usize.
+      destruct (vlen s <? 1) eqn:E; [lia|]. eexists _, _. split; [reflexivity|]. split; cbn; lia.
+    - destruct ped; eexists _, _; (split; [reflexivity|exact H]).
+  Qed.
+
+  Lemma tp_pop_usize ped : tp cap (vs_pop_usize ped).
+  Proof. unfold vs_pop_usize. apply tp_bind; [apply tp_pop|]. intros a. apply tp_ret. Qed.
+
+  Lemma tp_pop_count ped : tp cap (vs_pop_count_checked ped).
+  Proof.
+    unfold vs_pop_count_checked. apply tp_bind; [apply tp_pop|]. intros a.
+    destruct ((a <? 0) && ped); [apply tp_fail|apply tp_ret].
+  Qed.
+
+  Lemma tp_unary ped f : tp cap (vs_apply_unary ped f).
+  Proof.
+    unfold vs_apply_unary. apply tp_bind; [apply tp_pop|]. intros a.
+    destruct (f a); [apply tp_push|apply tp_fail].
+  Qed.
+
+  Lemma tp_binary ped f : tp cap (vs_apply_binary ped f).
+  Proof.
+    unfold vs_apply_binary. apply tp_bind; [apply tp_pop|]. intros b.
+    apply tp_bind; [apply tp_pop|]. intros a.
+    destruct (f a b); [apply tp_push|apply tp_fail].
+  Qed.
+
+  Lemma tp_clear : tp cap vs_clear.
+  Proof.
+    intros s [Hl Hn]. unfold vs_clear. eexists _, _. split; [reflexivity|]. split; cbn; [exact Hl|lia].
+  Qed.
+
+  Lemma tp_dup ped : tp cap (vs_dup ped).
+  Proof.
+    intros s H. unfold vs_dup. destruct (vs_peek s); [apply tp_push; exact H|].
+    destruct ped; [eexists _, _; split; [reflexivity|exact H]|apply tp_push; exact H].
+  Qed.
+
+  Lemma tp_swap ped : tp cap (vs_swap ped).
+  Proof.
+    unfold vs_swap. repeat (apply tp_bind; [first [apply tp_pop|apply tp_push]|intros ?]). apply tp_push.
+  Qed.
+
+  Lemma tp_roll ped : tp cap (vs_roll ped).
+  Proof.
+    unfold vs_roll. repeat (apply tp_bind; [first [apply tp_pop|apply tp_push]|intros ?]). apply tp_push.
+  Qed.
+
+  Lemma wrap_u64_nonneg v : 0 <= wrap_u 64 v.
+  Proof. unfold wrap_u. apply Z.mod_pos_bound. reflexivity. Qed.
+
+  Lemma tp_copy_index : tp cap vs_copy_index.
+  Proof.
+    intros s [Hl Hn]. unfold vs_copy_index, checked_sub.
+    destruct (vlen s <? 1) eqn:E1; [eexists _, _; split; [reflexivity|split; assumption]|].
+    destruct (zget_some (vals s) (vlen s - 1) ltac:(lia)) as [v ->].
+    pose proof (wrap_u64_nonneg v) as Hw.
+    destruct (vlen s - 1 <? wrap_u 64 v) eqn:E2; [eexists _, _; split; [reflexivity|split; assumption]|].
+    destruct (zget_some (vals s) (vlen s - 1 - wrap_u 64 v) ltac:(lia)) as [e ->].
+    destruct (zset_some (vals s) (vlen s - 1) e ltac:(lia)) as [vs' Hs]. rewrite Hs.
+    apply zset_inv in Hs. eexists _, _. split; [reflexivity|]. split; cbn; lia.
+  Qed.
+
+  Lemma copy_within_some l lo hi d : 0 <= lo <= hi -> hi <= zlen l -> 0 <= d -> d + (hi - lo) <= zlen l ->
+    exists l', copy_within l lo hi d = Some l' /\ zlen l' = zlen l.
+  Proof.
+    intros H1 H2 H3 H4. unfold copy_within.
+    destruct ((hi <? lo) || (zlen l <? hi) || (zlen l <? d + (hi - lo)) || (lo <? 0) || (d <? 0)) eqn:E; [lia|].
+    eexists. split; [reflexivity|]. unfold zlen in *.
+    rewrite !app_length, !firstn_length, !skipn_length. lia.
+  Qed.
+
+  Lemma tp_move_index : tp cap vs_move_index.
+  Proof.
+    intros s [Hl Hn]. unfold vs_move_index, checked_sub.
+    destruct (vlen s <? 1) eqn:E1; [eexists _, _; split; [reflexivity|split; assumption]|].
+    destruct (zget_some (vals s) (vlen s - 1) ltac:(lia)) as [v ->].
+    pose proof (wrap_u64_nonneg v) as Hw.
+    destruct (vlen s - 1 <? wrap_u 64 v) eqn:E2; [eexists _, _; split; [reflexivity|split; assumption]|].
+    destruct (vlen s - 1 <? 1) eqn:E3; [eexists _, _; split; [reflexivity|split; assumption]|].
+    destruct (zget_some (vals s) (vlen s - 1 - wrap_u 64 v) ltac:(lia)) as [e ->].
+    unfold add_usize, isize_max, usize_max in *.
+    destruct (18446744073709551615 <? vlen s - 1 - wrap_u 64 v + 1) eqn:E4; [lia|].
+    destruct (copy_within_some (vals s) (vlen s - 1 - wrap_u 64 v + 1) (vlen s) (vlen s - 1 - wrap_u 64 v)
+                ltac:(lia) ltac:(lia) ltac:(lia) ltac:(lia)) as (vs1 & -> & Hl1).
+    destruct (zset_some vs1 (vlen s - 1 - 1) e ltac:(lia)) as [vs2 Hs]. rewrite Hs.
+    apply zset_inv in Hs. unfold sub_usize. rewrite E1.
+    eexists _, _. split; [reflexivity|]. split; cbn; lia.
+  Qed.
+
+  (* admissible operations: pushed operand lists are real slices *)
+  Definition vop_ok (o : vop) : Prop :=
+    match o with OPushList l => zlen l <= isize_max | _ => True end.
+
+  Lemma vs_step_total ped o s : vop_ok o -> vinv cap s ->
+    exists s' ob, vs_step ped o s = Some (s', ob) /\ vinv cap s'.
+  Proof.
+    intros Hok H.
+    assert (G : forall A (val : A -> Z) (m : M A), tp cap m ->
+               exists s' ob, option_map (obs_of val) (m s) = Some (s', ob) /\ vinv cap s').
+    { intros A val m Hm. destruct (Hm s H) as (s' & o' & -> & H'). cbn. destruct o' as [a|[]]; eauto. }
+    destruct o; cbn [vs_step].
+    - apply G, tp_push.
+    - apply G, tp_push_list, Hok.
+    - eexists _, _. split; [reflexivity|exact H].
+    - apply G, tp_pop.
+    - apply G, tp_pop_usize.
+    - apply G, tp_pop_count.
+    - apply G, tp_unary.
+    - apply G, tp_binary.
+    - apply G, tp_clear.
+    - apply G, tp_dup.
+    - apply G, tp_swap.
+    - apply G, tp_copy_index.
+    - apply G, tp_move_index.
+    - apply G, tp_roll.
+  Qed.
+
+  Lemma vs_run_total ped ops : Forall vop_ok ops -> forall s, vinv cap s ->
+    exists s' obs, vs_run ped ops s = Some (s', obs) /\ vinv cap s' /\ length obs = length ops /\
+                   Forall (fun ob => 0 <= snd ob <= cap) obs.
+  Proof.
+    induction 1 as [|o r Ho Hr IH]; intros s H; cbn [vs_run].
+    - eexists _, _. split; [reflexivity|]. split; [exact H|]. split; [reflexivity|constructor].
+    - destruct (vs_step_total ped o s Ho H) as (s1 & ob & E1 & H1). rewrite E1.
+      destruct (IH s1 H1) as (s2 & obs & E2 & H2 & Hlen & Hall). rewrite E2.
+      eexists _, _. split; [reflexivity|]. split; [exact H2|]. split.
+      + cbn. lia.
+      + constructor; [|exact Hall].
+        (* the reported length is the length of the state after the call *)
+        clear - E1 H1.
+        assert (snd ob = vlen s1).
+        { destruct o; cbn [vs_step] in E1;
+            try (match type of E1 with option_map _ ?m = _ => destruct m as [[sx ox]|]; [|discriminate] end;
+                 cbn in E1; destruct ox as [a|[]]; inversion E1; reflexivity).
+          destruct (vs_peek s); inversion E1; reflexivity. }
+        destruct H1. lia.
+  Qed.
+End VS.
+
+(* value_stack_total: for every capacity, both modes, every op sequence (closures arbitrary), starting
+   from the empty stack over any backing store: no call panics, and len <= capacity throughout *)
+Lemma value_stack_total_lemma : forall (store : list Z) (ped : bool) (ops : list vop),
+  zlen store <= isize_max -> Forall vop_ok ops ->
+  exists s' obs, vs_run ped ops (mkVS store 0) = Some (s', obs) /\
+                 zlen (vals s') = zlen store /\ 0 <= vlen s' <= zlen store /\
+                 length obs = length ops /\ Forall (fun ob => 0 <= snd ob <= zlen store) obs.
+Proof.
+  intros store ped ops Hc Hok.
+  destruct (vs_run_total (zlen store) Hc ped ops Hok (mkVS store 0)) as (s' & obs & E & [H1 H2] & H3 & H4).
+  - split; cbn; [reflexivity|]. pose proof (zlen_nonneg store). lia.
+  - eexists _, _. split; [exact E|]. auto.
+Qed.
+
+(* ------------------------------------------------------------------------------------------ *)
+(* (a) Decycler: it is a stack (the root-to-current chain) with a depth cap and the            *)
+(*     tortoise test against the element at index depth/2                                      *)
+(* ------------------------------------------------------------------------------------------ *)
+(* specification on the chain of entered-and-not-yet-left node ids, root first *)
+Definition spec_enter_ok (chain : list Z) (id : Z) : bool :=
+  (zlen chain =? 0) ||
+  match zget chain (zlen chain / 2) with Some x => negb (x =? id) | None => false end.
+
+Definition spec_step (D : Z) (chain : list Z) (op : option Z) : list Z * option (Z * Z) :=
+  match op with
+  | Some id =>
+      if zlen chain <? D then
+        if spec_enter_ok chain id then (chain ++ [id], Some (0, zlen chain + 1))
+        else (chain, Some (1, zlen chain))
+      else (chain, Some (2, zlen chain))
+  | None => (removelast chain, None)
+  end.
+
+Fixpoint spec_drive (D : Z) (chain : list Z) (ops : list (option Z)) : list (Z * Z) :=
+  match ops with
+  | [] => []
+  | op :: r => let '(c', o) := spec_step D chain op in
+               match o with Some x => x :: spec_drive D c' r | None => spec_drive D c' r end
+  end.
+
+Fixpoint spec_final (D : Z) (chain : list Z) (ops : list (option Z)) : list Z :=
+  match ops with
+  | [] => chain
+  | op :: r => spec_final D (fst (spec_step D chain op)) r
+  end.
+
+Definition dec_rel (D : Z) (d : decycler) (chain : list Z) : Prop :=
+  zlen (node_ids d) = D /\ 0 <= ddepth d <= D /\ chain = firstn (Z.to_nat (ddepth d)) (node_ids d).
+
+Lemma nth_error_firstn_lt {A} (l : list A) n i : (i < n)%nat -> nth_error (firstn n l) i = nth_error l i.
+Proof.
+  revert n i. induction l as [|x r IH]; intros n i H.
+  - rewrite firstn_nil. reflexivity.
+  - destruct n; [lia|]. destruct i; cbn; [reflexivity|]. apply IH. lia.
+Qed.
+
+Lemma firstn_set_nth_snoc {A} (l l' : list A) n v : set_nth l n v = Some l' -> firstn (S n) l' = firstn n l ++ [v].
+Proof.
+  revert n l'. induction l as [|x r IH]; intros n l' H; cbn in H; [discriminate|].
+  destruct n; [inversion H; reflexivity|].
+  destruct (set_nth r n v) eqn:E; [|discriminate]. inversion H; subst.
+  cbn [firstn app]. f_equal. apply IH. exact E.
+Qed.
+
+Lemma dec_rel_len D d chain : dec_rel D d chain -> zlen chain = ddepth d.
+Proof.
+  intros (Hl & Hd & ->). unfold zlen in *. rewrite firstn_length. lia.
+Qed.
+
+Lemma dec_step_refines D d chain op r : 0 < D <= isize_max -> dec_rel D d chain ->
+  (forall d' c', dec_rel D d' c' -> dec_drive D d' r = Some (spec_drive D c' r)) ->
+  dec_drive D d (op :: r) = Some (spec_drive D chain (op :: r)).
+Proof.
+  intros HD Hrel IH. pose proof (dec_rel_len _ _ _ Hrel) as Hlen.
+  destruct Hrel as (Hl & Hd & Hc).
+  destruct op as [id|]; cbn [dec_drive spec_drive spec_step].
+  - unfold dec_enter. rewrite Hlen.
+    destruct (ddepth d <? D) eqn:E1.
+    + (* the write and the increment cannot fail *)
+      destruct (zset_some (node_ids d) (ddepth d) id ltac:(lia)) as [ids' Hs].
+      assert (Hadd : add_usize (ddepth d) 1 = Some (ddepth d + 1)).
+      { unfold add_usize, usize_max, isize_max in *. destruct (18446744073709551615 <? ddepth d + 1) eqn:E; [lia|reflexivity]. }
+      assert (Hrel' : dec_rel D (mkDec ids' (ddepth d + 1)) (chain ++ [id])).
+      { pose proof (zset_inv _ _ _ _ Hs) as [_ Hl']. split; [cbn; lia|]. split; [cbn; lia|]. cbn.
+        replace (Z.to_nat (ddepth d + 1)) with (S (Z.to_nat (ddepth d))) by lia.
+        unfold zset in Hs. destruct ((ddepth d <? 0) || (zlen (node_ids d) <=? ddepth d)); [discriminate|].
+        rewrite (firstn_set_nth_snoc _ _ _ _ Hs). rewrite Hc. reflexivity. }
+      unfold spec_enter_ok. rewrite Hlen.
+      destruct (ddepth d =? 0) eqn:E0.
+      * cbn [orb]. rewrite Hs, Hadd. rewrite (IH _ _ Hrel'). reflexivity.
+      * cbn [orb].
+        (* the read at depth/2 is in range and sees the chain *)
+        assert (Hget : zget (node_ids d) (ddepth d / 2) = zget chain (ddepth d / 2)).
+        { unfold zget. rewrite Hlen, Hl.
+          destruct ((ddepth d / 2 <? 0) || (D <=? ddepth d / 2)) eqn:Ea;
+          destruct ((ddepth d / 2 <? 0) || (ddepth d <=? ddepth d / 2)) eqn:Eb; try lia.
+          rewrite Hc. symmetry. apply nth_error_firstn_lt. lia. }
+        destruct (zget_some (node_ids d) (ddepth d / 2) ltac:(lia)) as [x Hx].
+        rewrite <- Hget, Hx.
+        destruct (negb (x =? id)).
+        -- rewrite Hs, Hadd. rewrite (IH _ _ Hrel'). reflexivity.
+        -- rewrite (IH d chain) by (split; [|split]; assumption). reflexivity.
+    + rewrite (IH d chain) by (split; [|split]; assumption). reflexivity.
+  - destruct (ddepth d =? 0) eqn:E0.
+    + (* ignored at depth 0; the chain is empty *)
+      assert (chain = []) as -> by (destruct chain; [reflexivity|unfold zlen in Hlen; cbn in Hlen; lia]).
+      cbn [removelast]. apply IH. split; [|split]; try assumption.
+    + unfold dec_leave, sub_usize. destruct (ddepth d <? 1) eqn:E1; [lia|].
+      apply IH. split; [exact Hl|]. split; [cbn; lia|]. cbn. rewrite Hc.
+      replace (Z.to_nat (ddepth d)) with (S (Z.to_nat (ddepth d - 1))) by lia.
+      apply removelast_firstn. unfold zlen in Hl. lia.
+Qed.
+
+Lemma dec_refines D ops : 0 < D <= isize_max -> forall d chain, dec_rel D d chain ->
+  dec_drive D d ops = Some (spec_drive D chain ops).
+Proof.
+  intros HD. induction ops as [|op r IH]; intros d chain Hrel; [reflexivity|].
+  apply dec_step_refines; auto.
+Qed.
+
+Lemma dec_new_rel D : 0 <= D -> dec_rel D (dec_new D) [].
+Proof.
+  intros H. unfold dec_new. split; [|split]; cbn.
+  - unfold zlen. rewrite repeat_length. lia.
+  - lia.
+  - reflexivity.
+Qed.
+
+Lemma zlen_app {A} (a b : list A) : zlen (a ++ b) = zlen a + zlen b.
+Proof. unfold zlen. rewrite app_length. lia. Qed.
+
+Lemma zlen_removelast {A} (l : list A) : zlen (removelast l) = Z.max 0 (zlen l - 1).
+Proof.
+  unfold zlen. rewrite removelast_firstn_len, firstn_length. destruct l; cbn [length Nat.pred]; lia.
+Qed.
+
+Lemma spec_step_len D chain op : 0 <= D -> zlen chain <= D -> zlen (fst (spec_step D chain op)) <= D.
+Proof.
+  intros HD H. destruct op as [id|]; cbn [spec_step].
+  - destruct (zlen chain <? D) eqn:E; [|exact H].
+    destruct (spec_enter_ok chain id); cbn [fst]; [|exact H]. rewrite zlen_app. unfold zlen at 2. cbn. lia.
+  - cbn [fst]. rewrite zlen_removelast. lia.
+Qed.
+
+Lemma spec_drive_depths D ops : 0 <= D -> forall chain, zlen chain <= D ->
+  Forall (fun o => 0 <= snd o <= D) (spec_drive D chain ops).
+Proof.
+  intros HD. induction ops as [|op r IH]; intros chain H; cbn [spec_drive]; [constructor|].
+  pose proof (spec_step_len D chain op HD H) as Hs. pose proof (zlen_nonneg chain).
+  destruct op as [id|]; cbn [spec_step] in *.
+  - destruct (zlen chain <? D) eqn:E.
+    + destruct (spec_enter_ok chain id); cbn [fst] in Hs; (constructor; [cbn; lia|apply IH; exact Hs]).
+    + constructor; [cbn; lia|apply IH; exact H].
+  - apply IH. exact Hs.
+Qed.
+
+(* decycler_safe *)
+Lemma decycler_safe_lemma : forall D ops, 0 < D <= isize_max ->
+  (* no array index out of range, no usize under/overflow: the driver never panics, and behaves exactly
+     as the stack specification *)
+  dec_drive D (dec_new D) ops = Some (spec_drive D [] ops) /\
+  (* every reported depth is within [0, D] *)
+  Forall (fun o => 0 <= snd o <= D) (spec_drive D [] ops) /\
+  (* stack discipline: a successful Enter followed by any body that ends back at the entered node and
+     then a Leave restores exactly the chain (hence the depth) before the Enter *)
+  (forall chain id body, zlen chain < D -> spec_enter_ok chain id = true ->
+     spec_final D (chain ++ [id]) body = chain ++ [id] ->
+     spec_final D chain (Some id :: body ++ [None]) = chain).
+Proof.
+  intros D ops HD. split; [|split].
+  - apply dec_refines; [exact HD|]. apply dec_new_rel. lia.
+  - apply spec_drive_depths; [lia|]. unfold zlen; cbn; lia.
+  - intros chain id body Hlt Hok Hbody. cbn [spec_final spec_step].
+    destruct (zlen chain <? D) eqn:E; [|lia]. rewrite Hok. cbn [fst].
+    assert (G : forall b c, spec_final D c (b ++ [None]) = removelast (spec_final D c b)).
+    { induction b as [|o b IHb]; intros c; cbn [app spec_final]; [reflexivity|apply IHb]. }
+    rewrite G, Hbody. apply removelast_last.
+Qed.
+
+(* ---- cycle detection ---- *)
+(* Enter-only descent along the sequence s(0), s(1), ...: as long as every Enter succeeded the chain is
+   the sequence itself *)
+Definition enters (s : nat -> Z) (n : nat) : list (option Z) := map (fun i => Some (s i)) (seq 0 n).
+Definition all_entered (l : list (Z * Z)) : bool := forallb (fun o => fst o =? 0) l.
+
+Lemma spec_drive_app D a b chain :
+  spec_drive D chain (a ++ b) = spec_drive D chain a ++ spec_drive D (spec_final D chain a) b.
+Proof.
+  revert chain. induction a as [|op r IH]; intros chain; cbn [app spec_drive spec_final]; [reflexivity|].
+  destruct (spec_step D chain op) as [c' [x|]]; cbn [fst]; rewrite IH; reflexivity.
+Qed.
+
+Lemma enters_succ s n : enters s (S n) = enters s n ++ [Some (s n)].
+Proof. unfold enters. rewrite seq_S, map_app. reflexivity. Qed.
+
+Lemma all_entered_app a b : all_entered (a ++ b) = all_entered a && all_entered b.
+Proof. unfold all_entered. apply forallb_app. Qed.
+
+Lemma all_entered_chain D s n : 0 <= D -> all_entered (spec_drive D [] (enters s n)) = true ->
+  spec_final D [] (enters s n) = map s (seq 0 n) /\ Z.of_nat n <= D.
+Proof.
+  intros HD0. induction n as [|n IH]; intros H.
+  - cbn. split; [reflexivity|lia].
+  - rewrite enters_succ, spec_drive_app, all_entered_app in H. apply andb_prop in H as [H1 H2].
+    destruct (IH H1) as [Hc Hn]. rewrite Hc in H2.
+    rewrite enters_succ.
+    assert (G : forall a c, spec_final D c (a ++ [Some (s n)]) = fst (spec_step D (spec_final D c a) (Some (s n)))).
+    { induction a as [|o a IHa]; intros c; cbn [app spec_final]; [reflexivity|apply IHa]. }
+    rewrite G, Hc. cbn [spec_drive spec_step] in H2. cbn [spec_step].
+    assert (Hzl : zlen (map s (seq 0 n)) = Z.of_nat n) by (unfold zlen; rewrite map_length, seq_length; reflexivity).
+    rewrite Hzl in *.
+    destruct (Z.of_nat n <? D) eqn:E; [|cbn in H2; discriminate].
+    destruct (spec_enter_ok (map s (seq 0 n)) (s n)); [|cbn in H2; discriminate].
+    cbn [fst]. split; [|lia]. rewrite seq_S, map_app. reflexivity.
+Qed.
+
+(* any Enter-only sequence whose Enters all succeed has length <= D: a descent longer than D is cut *)
+Lemma depth_limit_cuts_lemma : forall D s n, 0 <= D ->
+  all_entered (spec_drive D [] (enters s n)) = true -> Z.of_nat n <= D.
+Proof. intros D s n HD H. apply (all_entered_chain D s n HD H). Qed.
+
+Lemma nth_error_seq0 a n i : (i < n)%nat -> nth_error (seq a n) i = Some (a + i)%nat.
+Proof.
+  revert a i. induction n as [|n IH]; intros a i H; [lia|].
+  destruct i; cbn; [f_equal; lia|]. rewrite IH by lia. f_equal. lia.
+Qed.
+
+Lemma zget_map_seq (s : nat -> Z) n i : (i < n)%nat -> zget (map s (seq 0 n)) (Z.of_nat i) = Some (s i).
+Proof.
+  intros H. unfold zget, zlen. rewrite map_length, seq_length.
+  destruct ((Z.of_nat i <? 0) || (Z.of_nat n <=? Z.of_nat i)) eqn:E; [lia|].
+  rewrite Nat2Z.id. apply map_nth_error. rewrite nth_error_seq0 by lia. reflexivity.
+Qed.
+
+Lemma periodic_mult (s : nat -> Z) P L : (forall i, (P <= i)%nat -> s (i + L)%nat = s i) ->
+  forall j i, (P <= i)%nat -> s (i + j * L)%nat = s i.
+Proof.
+  intros Hp. induction j as [|j IH]; intros i Hi.
+  - f_equal. lia.
+  - replace (i + S j * L)%nat with ((i + j * L) + L)%nat by lia. rewrite Hp by lia. apply IH. exact Hi.
+Qed.
+
+(* a descent that, after a prefix of P nodes, goes round a cycle of length L for ever is rejected no
+   later than at its (2 * (P/L + 1) * L)-th Enter, i.e. within 2 * (P + L) Enters (2L for a cycle
+   through the root) — or earlier by the depth limit *)
+Lemma cycle_cut_lemma : forall D (s : nat -> Z) (P L : nat), 0 <= D -> (1 <= L)%nat ->
+  (forall i, (P <= i)%nat -> s (i + L)%nat = s i) ->
+  all_entered (spec_drive D [] (enters s (2 * (P / L + 1) * L))) = false /\
+  (2 * (P / L + 1) * L <= 2 * (P + L))%nat.
+Proof.
+  intros D s P L HD HL Hp. set (k := (P / L + 1)%nat).
+  assert (HkP : (P < k * L)%nat).
+  { pose proof (Nat.mul_succ_div_gt P L ltac:(lia)). unfold k. replace (P / L + 1)%nat with (S (P / L)) by lia. lia. }
+  assert (HkU : (k * L <= P + L)%nat).
+  { pose proof (Nat.mul_div_le P L ltac:(lia)). unfold k. lia. }
+  split; [|lia].
+  destruct (all_entered (spec_drive D [] (enters s (2 * k * L)))) eqn:Hall; [exfalso|reflexivity].
+  set (n := (2 * k * L - 1)%nat).
+  assert (Hn : (2 * k * L = S n)%nat) by (unfold n; lia).
+  rewrite Hn, enters_succ, spec_drive_app, all_entered_app in Hall. apply andb_prop in Hall as [H1 H2].
+  destruct (all_entered_chain D s n HD H1) as [Hc Hle]. rewrite Hc in H2.
+  cbn [spec_drive spec_step] in H2.
+  assert (Hzl : zlen (map s (seq 0 n)) = Z.of_nat n) by (unfold zlen; rewrite map_length, seq_length; reflexivity).
+  rewrite Hzl in H2.
+  destruct (Z.of_nat n <? D) eqn:E; [|cbn in H2; discriminate].
+  unfold spec_enter_ok in H2. rewrite Hzl in H2.
+  assert (Hhalf : Z.of_nat n / 2 = Z.of_nat (k * L - 1)).
+  { unfold n. assert (Z.of_nat (2 * k * L - 1) = 2 * Z.of_nat (k * L - 1) + 1) by lia. lia. }
+  rewrite Hhalf, zget_map_seq in H2 by (unfold n; lia).
+  assert (Hs : s n = s (k * L - 1)%nat).
+  { replace n with ((k * L - 1) + k * L)%nat by (unfold n; lia). apply (periodic_mult s P L Hp). lia. }
+  rewrite Hs in H2. rewrite Z.eqb_refl in H2.
+  destruct (Z.of_nat n =? 0) eqn:E0; [unfold n in E0; lia|]. cbn in H2. discriminate.
+Qed.
+
+(* ------------------------------------------------------------------------------------------ *)
+(* (c) CallStack                                                                               *)
+(* ------------------------------------------------------------------------------------------ *)
+Definition cinv {R} (c : callstack R) : Prop :=
+  zlen (recs c) = CALL_MAX_DEPTH /\ 0 <= clen c <= CALL_MAX_DEPTH.
+
+Lemma cs_push_cases {R} (c : callstack R) r : cinv c ->
+  (cs_push c r = CsOverflow /\ clen c = CALL_MAX_DEPTH) \/
+  (exists c', cs_push c r = CsOk tt c' /\ cinv c' /\ clen c' = clen c + 1 /\ clen c < CALL_MAX_DEPTH).
+Proof.
+  intros [Hl Hn]. unfold cs_push. unfold CALL_MAX_DEPTH in *.
+  destruct (Z.eq_dec (clen c) 32) as [E|E].
+  - left. rewrite zset_none by lia. auto.
+  - right. destruct (zset_some (recs c) (clen c) r ltac:(lia)) as [rs' Hs]. rewrite Hs.
+    apply zset_inv in Hs. unfold add_usize, usize_max.
+    destruct (18446744073709551615 <? clen c + 1) eqn:Eo; [lia|].
+    eexists. split; [reflexivity|]. unfold cinv, CALL_MAX_DEPTH. cbn. lia.
+Qed.
+
+Lemma cs_pop_cases {R} (c : callstack R) : cinv c ->
+  (cs_pop c = CsUnderflow /\ clen c = 0) \/
+  (exists r c', cs_pop c = CsOk r c' /\ cinv c' /\ clen c' = clen c - 1 /\ 0 < clen c).
+Proof.
+  intros [Hl Hn]. unfold cs_pop, cs_peek, checked_sub. unfold CALL_MAX_DEPTH in *.
+  destruct (clen c <? 1) eqn:E.
+  - left. split; [reflexivity|lia].
+  - right. destruct (zget_some (recs c) (clen c - 1) ltac:(lia)) as [r ->].
+    unfold sub_usize. rewrite E. eexists _, _. split; [reflexivity|]. unfold cinv, CALL_MAX_DEPTH. cbn. lia.
+Qed.
+
+Lemma cs_new_inv {R} (d : R) : cinv (cs_new d).
+Proof. unfold cs_new, cinv, CALL_MAX_DEPTH. cbn. unfold zlen. rewrite repeat_length. lia. Qed.
+
+Lemma call_stack_total_lemma : forall (ops : list cop) (c : callstack (Z * Z)), cinv c ->
+  exists obs, cs_run ops c = Some obs /\ length obs = length ops.
+Proof.
+  induction ops as [|o r IH]; intros c H; cbn [cs_run]; [eexists; split; reflexivity|].
+  destruct o as [pc n| | |].
+  - destruct (cs_push_cases c (pc, n) H) as [[-> _]|(c' & -> & H' & _)].
+    + destruct (IH c H) as (obs & -> & Hl). eexists; split; [reflexivity|cbn; lia].
+    + destruct (IH c' H') as (obs & -> & Hl). eexists; split; [reflexivity|cbn; lia].
+  - destruct (IH c H) as (obs & -> & Hl). eexists; split; [reflexivity|cbn; lia].
+  - destruct (cs_pop_cases c H) as [[-> _]|([pc n] & c' & -> & H' & _)].
+    + destruct (IH c H) as (obs & -> & Hl). eexists; split; [reflexivity|cbn; lia].
+    + destruct (IH c' H') as (obs & -> & Hl). eexists; split; [reflexivity|cbn; lia].
+  - assert (H' : cinv (cs_clear c)) by (destruct H; split; cbn; [assumption|unfold CALL_MAX_DEPTH; lia]).
+    destruct (IH _ H') as (obs & -> & Hl). eexists; split; [reflexivity|cbn; lia].
+Qed.
+
+(* ------------------------------------------------------------------------------------------ *)
+(* (d) run loop                                                                                *)
+(* ------------------------------------------------------------------------------------------ *)
+Section RunProofs.
+  Context {S P : Type}.
+  Variable oracle : S -> effect S P.
+
+  (* loop-call counts come from an i32 that op_loopcall has tested to be positive *)
+  Definition count_ok (e : effect S P) : Prop :=
+    match e with
+    | FLoopCall c _ _ | FLoopCallErr c _ => 0 < c <= 2147483647
+    | _ => True
+    end.
+  Hypothesis Horacle : forall s, count_ok (oracle s).
+
+  Definition binv (b : budget) : Prop :=
+    0 <= backward_jumps b <= blimit b /\ 0 <= loop_calls b <= blimit b /\ blimit b + 2147483648 <= usize_max.
+  Definition minv (m : mstate S P) : Prop := cinv (cstack m) /\ binv (bud m).
+
+  Lemma prog_enter_ok m count p s : minv m ->
+    match prog_enter m count p s with
+    | DOk m' => minv m'
+    | DErr _ m' => minv m'
+    | DPanic => False
+    end.
+  Proof.
+    intros [Hc Hb]. unfold prog_enter.
+    destruct (cs_push_cases (cstack m) (count, p) Hc) as [[-> _]|(c' & -> & H' & _)].
+    - split; assumption.
+    - split; cbn; assumption.
+  Qed.
+
+  Lemma prog_leave_ok m again back : minv m ->
+    match prog_leave m again back with
+    | DOk m' => minv m'
+    | DErr _ m' => minv m'
+    | DPanic => False
+    end.
+  Proof.
+    intros [Hc Hb]. unfold prog_leave.
+    destruct (cs_pop_cases (cstack m) Hc) as [[-> _]|([count p] & c' & -> & H' & _)].
+    - split; assumption.
+    - destruct (1 <? count).
+      + destruct (cs_push_cases c' (count - 1, p) H') as [[-> _]|(c'' & -> & H'' & _)]; split; cbn; assumption.
+      + split; cbn; assumption.
+  Qed.
+
+  Lemma dispatch_ok e m : minv m -> count_ok e ->
+    match dispatch e m with
+    | DOk m' => minv m'
+    | DErr _ m' => cinv (cstack m')
+    | DPanic => False
+    end.
+  Proof.
+    intros Hm Hcnt. pose proof Hm as [Hc Hb]. destruct Hb as (Hj & Hl & Hlim).
+    unfold usize_max in Hlim.
+    destruct e; cbn [dispatch].
+    - exact Hm.
+    - exact Hm.
+    - exact Hc.
+    - split; cbn; [exact Hc|unfold binv, usize_max; lia].
+    - unfold doing_backward_jump, add_usize, usize_max.
+      destruct (18446744073709551615 <? backward_jumps (bud m) + 1) eqn:E; [lia|]. cbn [blimit].
+      destruct (blimit (bud m) <? backward_jumps (bud m) + 1) eqn:E2; cbn [negb].
+      + exact Hc.
+      + split; cbn; [exact Hc|unfold binv, usize_max; cbn; lia].
+    - pose proof (prog_enter_ok m 1 p s Hm) as G. destruct (prog_enter m 1 p s); [exact G|apply G|exact G].
+    - cbn in Hcnt. unfold doing_loop_call, add_usize, usize_max.
+      destruct (18446744073709551615 <? loop_calls (bud m) + count) eqn:E; [lia|]. cbn [blimit].
+      destruct (blimit (bud m) <? loop_calls (bud m) + count) eqn:E2; cbn [negb].
+      + exact Hc.
+      + match goal with |- match prog_enter ?mm _ _ _ with _ => _ end =>
+          assert (Hmm : minv mm) by (split; cbn; [exact Hc|unfold binv, usize_max; cbn; lia]);
+          pose proof (prog_enter_ok mm count p s Hmm) as G; destruct (prog_enter mm count p s) end;
+          [exact G|apply G|exact G].
+    - cbn in Hcnt. unfold doing_loop_call, add_usize, usize_max.
+      destruct (18446744073709551615 <? loop_calls (bud m) + count) eqn:E; [lia|]. cbn [blimit].
+      destruct (blimit (bud m) <? loop_calls (bud m) + count) eqn:E2; cbn [negb]; exact Hc.
+    - pose proof (prog_leave_ok m again back Hm) as G. destruct (prog_leave m again back); [exact G|apply G|exact G].
+  Qed.
+
+  (* Engine::run: with count instructions already counted, at most MAX + 1 - count further dispatches
+     happen, whatever the oracle does; never a panic; the fuel is never exhausted *)
+  Lemma run_fuel_bounded : forall fuel count m,
+    0 <= count <= MAX_RUN_INSTRUCTIONS -> (Z.to_nat (MAX_RUN_INSTRUCTIONS + 1 - count) < fuel)%nat -> minv m ->
+    let '(o, n, m', _) := run_fuel oracle fuel count m in
+    o <> RunOutOfFuel /\ o <> RunPanic /\ count <= n <= MAX_RUN_INSTRUCTIONS + 1 /\ cinv (cstack m') /\
+    (o = RunOk -> minv m') /\ (o = RunErrMax -> n = MAX_RUN_INSTRUCTIONS + 1).
+  Proof.
+    unfold MAX_RUN_INSTRUCTIONS.
+    induction fuel as [|f IH]; intros count m Hcount Hfuel Hm; [lia|].
+    cbn [run_fuel]. pose proof (Horacle (sigma m)) as Hok.
+    assert (Hhalt : forall o, (o = RunOk \/ o = RunErr K_END) ->
+              o <> RunOutOfFuel /\ o <> RunPanic /\ count <= count <= 1000000 + 1 /\ cinv (cstack m) /\
+              (o = RunOk -> minv m) /\ (o = RunErrMax -> count = 1000000 + 1)).
+    { intros o [-> | ->]; (split; [discriminate|]; split; [discriminate|]; split; [lia|]; split; [apply Hm|];
+        split; [intros _; exact Hm || discriminate|discriminate]). }
+    assert (Hdisp : forall e, count_ok e ->
+      let '(o, n, m', _) :=
+        match dispatch e m with
+        | DPanic => (RunPanic, count + 1, m, sigma m)
+        | DErr k m' => (RunErr k, count + 1, m', sigma m)
+        | DOk m' => if 1000000 <? count + 1 then (RunErrMax, count + 1, m', sigma m)
+                    else run_fuel oracle f (count + 1) m'
+        end in
+      o <> RunOutOfFuel /\ o <> RunPanic /\ count <= n <= 1000000 + 1 /\ cinv (cstack m') /\
+      (o = RunOk -> minv m') /\ (o = RunErrMax -> n = 1000000 + 1)).
+    { intros e He. pose proof (dispatch_ok e m Hm He) as G. destruct (dispatch e m) as [m'|k m'|];
+        [|split; [discriminate|]; split; [discriminate|]; split; [lia|]; split; [exact G|]; split; [discriminate|discriminate]|contradiction].
+      destruct (1000000 <? count + 1) eqn:E.
+      - split; [discriminate|]. split; [discriminate|]. split; [lia|]. split; [apply G|]. split; [discriminate|intros _; lia].
+      - specialize (IH (count + 1) m' ltac:(lia) ltac:(lia) G).
+        destruct (run_fuel oracle f (count + 1) m') as [[[o n] m''] sl].
+        destruct IH as (H1 & H2 & H3 & H4 & H5 & H6).
+        split; [exact H1|]. split; [exact H2|]. split; [lia|]. split; [exact H4|]. split; [exact H5|exact H6]. }
+    destruct (oracle (sigma m)) eqn:Eo.
+    - apply Hhalt. auto.
+    - apply Hhalt. auto.
+    - apply (Hdisp (FErr kind) Hok).
+    - apply (Hdisp (FNext s) Hok).
+    - apply (Hdisp (FJumpBack s) Hok).
+    - apply (Hdisp (FCall p s) Hok).
+    - apply (Hdisp (FLoopCall count0 p s) Hok).
+    - apply (Hdisp (FLoopCallErr count0 kind) Hok).
+    - apply (Hdisp (FLeave again back) Hok).
+  Qed.
+
+  Lemma run_bounded_lemma : forall m, minv m ->
+    let '(o, n, m', _) := run oracle m in
+    o <> RunOutOfFuel /\ o <> RunPanic /\ 0 <= n <= MAX_RUN_INSTRUCTIONS + 1 /\ cinv (cstack m') /\
+    (o = RunOk -> minv m') /\ (o = RunErrMax -> n = MAX_RUN_INSTRUCTIONS + 1).
+  Proof.
+    intros m Hm. unfold run.
+    apply (run_fuel_bounded (Z.to_nat (MAX_RUN_INSTRUCTIONS + 2)) 0 m); [unfold MAX_RUN_INSTRUCTIONS; lia| |exact Hm].
+    unfold MAX_RUN_INSTRUCTIONS. lia.
+  Qed.
+End RunProofs.
+
+(* the limit computed by LoopBudget::new satisfies the arithmetic side condition for every u32 cvt
+   length and every point count below 2^32 *)
+Lemma loop_limit_ok : forall pc cvt_len, 0 <= cvt_len < 4294967296 ->
+  match pc with Some p => 0 <= p < 4294967296 | None => True end ->
+  0 <= loop_limit pc cvt_len /\ loop_limit pc cvt_len + 2147483648 <= usize_max.
+Proof.
+  intros pc cvt_len Hc Hp. unfold loop_limit, usize_max. destruct pc as [p|]; lia.
+Qed.
+
+(* ------------------------------------------------------------------------------------------ *)
+(* (e) composite recursion                                                                     *)
+(* ------------------------------------------------------------------------------------------ *)
+Section CompositeProofs.
+  Variable glyph_of : Z -> gkind.
+
+  Lemma load_fuel_enough : forall fuel depth gid,
+    (Z.to_nat (GLYF_COMPOSITE_RECURSION_LIMIT + 1 - depth) < fuel)%nat ->
+    fst (load_fuel glyph_of fuel depth gid) <> LoadOutOfFuel.
+  Proof.
+    unfold GLYF_COMPOSITE_RECURSION_LIMIT.
+    induction fuel as [|f IH]; intros depth gid Hf; [lia|].
+    cbn [load_fuel]. unfold GLYF_COMPOSITE_RECURSION_LIMIT.
+    destruct (32 <? depth) eqn:E; [cbn; discriminate|].
+    destruct (glyph_of gid) as [| |comps]; [cbn; discriminate|cbn; discriminate|].
+    assert (IH' : forall c, fst (load_fuel glyph_of f (depth + 1) c) <> LoadOutOfFuel) by (intros c; apply IH; lia).
+    clear IH. remember (depth + 1) as d1 eqn:Hd1. clear Hd1.
+    generalize 1 as n. induction comps as [|c r IHr]; intros n; [cbn; discriminate|].
+    pose proof (IH' c) as IH.
+    destruct (load_fuel glyph_of f d1 c) as [res k]. cbn [fst] in IH.
+    destruct res; [apply IHr|cbn; discriminate|contradiction].
+  Qed.
+
+  Lemma outline_rec_fuel_enough : forall fuel depth gid,
+    (Z.to_nat (GLYF_COMPOSITE_RECURSION_LIMIT + 1 - depth) < fuel)%nat ->
+    fst (outline_rec_fuel glyph_of fuel depth gid) <> LoadOutOfFuel.
+  Proof.
+    unfold GLYF_COMPOSITE_RECURSION_LIMIT.
+    induction fuel as [|f IH]; intros depth gid Hf; [lia|].
+    cbn [outline_rec_fuel]. unfold GLYF_COMPOSITE_RECURSION_LIMIT.
+    destruct (32 <? depth) eqn:E; [cbn; discriminate|].
+    destruct (glyph_of gid) as [| |comps]; [cbn; discriminate|cbn; discriminate|].
+    assert (IH' : forall c, fst (outline_rec_fuel glyph_of f (depth + 1) c) <> LoadOutOfFuel) by (intros c; apply IH; lia).
+    clear IH. remember (depth + 1) as d1 eqn:Hd1. clear Hd1.
+    generalize 1 as n. induction comps as [|c r IHr]; intros n; [cbn; discriminate|].
+    destruct (glyph_of c); [apply IHr| |];
+      (pose proof (IH' c) as IH;
+       destruct (outline_rec_fuel glyph_of f d1 c) as [res k]; cbn [fst] in IH;
+       destruct res; [apply IHr|cbn; discriminate|contradiction]).
+  Qed.
+
+  (* on a component map in which every glyph is a composite with at least one component (so every
+     descent is infinite: cycles, or an infinite family), loading reports the recursion limit *)
+  Lemma load_fuel_cyclic : (forall g, exists c cs, glyph_of g = GComposite (c :: cs)) ->
+    forall fuel depth gid, (Z.to_nat (GLYF_COMPOSITE_RECURSION_LIMIT + 1 - depth) < fuel)%nat ->
+    fst (load_fuel glyph_of fuel depth gid) = LoadRecursionLimit.
+  Proof.
+    intros Hall. unfold GLYF_COMPOSITE_RECURSION_LIMIT.
+    induction fuel as [|f IH]; intros depth gid Hf; [lia|].
+    cbn [load_fuel]. unfold GLYF_COMPOSITE_RECURSION_LIMIT.
+    destruct (32 <? depth) eqn:E; [reflexivity|].
+    destruct (Hall gid) as (c & cs & ->).
+    specialize (IH (depth + 1) c ltac:(lia)).
+    destruct (load_fuel glyph_of f (depth + 1) c) as [res k]. cbn [fst] in IH. subst res. reflexivity.
+  Qed.
+
+  Lemma composite_load_terminates_lemma : forall depth gid, 0 <= depth ->
+    fst (load glyph_of depth gid) <> LoadOutOfFuel /\
+    fst (outline_rec_fuel glyph_of (Z.to_nat (GLYF_COMPOSITE_RECURSION_LIMIT + 2)) depth gid) <> LoadOutOfFuel /\
+    fst (outline glyph_of gid) <> LoadOutOfFuel /\
+    ((forall g, exists c cs, glyph_of g = GComposite (c :: cs)) ->
+       fst (load glyph_of depth gid) = LoadRecursionLimit).
+  Proof.
+    intros depth gid Hd. unfold load, outline.
+    assert (Hf : (Z.to_nat (GLYF_COMPOSITE_RECURSION_LIMIT + 1 - depth) < Z.to_nat (GLYF_COMPOSITE_RECURSION_LIMIT + 2))%nat)
+      by (unfold GLYF_COMPOSITE_RECURSION_LIMIT; lia).
+    split; [apply load_fuel_enough; exact Hf|].
+    split; [apply outline_rec_fuel_enough; exact Hf|].
+    split.
+    - destruct (glyph_of gid); [cbn; discriminate| |]; apply outline_rec_fuel_enough; unfold GLYF_COMPOSITE_RECURSION_LIMIT; lia.
+    - intros Hall. apply load_fuel_cyclic; [exact Hall|exact Hf].
+  Qed.
+End CompositeProofs.
+
+Lemma call_stack_depth_lemma : forall (R : Type) (c : callstack R) (r : R), cinv c ->
+  match cs_push c r with
+  | CsOk _ c' => cinv c' /\ clen c' = clen c + 1
+  | CsOverflow => clen c = CALL_MAX_DEPTH
+  | _ => False
+  end /\
+  match cs_pop c with
+  | CsOk _ c' => cinv c' /\ clen c' = clen c - 1
+  | CsUnderflow => clen c = 0
+  | _ => False
+  end.
+Proof.
+  intros R c r H. split.
+  - destruct (cs_push_cases c r H) as [[-> E]|(c' & -> & H' & E & _)]; auto.
+  - destruct (cs_pop_cases c H) as [[-> E]|(x & c' & -> & H' & E & _)]; auto.
+Qed.
+
+(* ------------------------------------------------------------------------------------------ *)
+(* (b') ValueStack behaves as a plain list (top last) with the documented error cases:          *)
+(*      push / pop / peek / clear (dup, swap, roll, apply_* are compositions of these)          *)
+(* ------------------------------------------------------------------------------------------ *)
+Definition stk (s : vstack) : list Z := firstn (Z.to_nat (vlen s)) (vals s).
+
+Lemma stk_len cap s : vinv cap s -> zlen (stk s) = vlen s.
+Proof. intros [Hl Hn]. unfold stk, zlen in *. rewrite firstn_length. lia. Qed.
+
+Lemma refine_push cap s v : cap <= isize_max -> vinv cap s ->
+  if vlen s <? cap
+  then exists s', vs_push v s = Some (s', Ok tt) /\ stk s' = stk s ++ [v] /\ vinv cap s'
+  else vs_push v s = Some (s, Err EOverflow).
+Proof.
+  intros Hcap [Hl Hn]. unfold vs_push. destruct (vlen s <? cap) eqn:E.
+  - destruct (zset_some (vals s) (vlen s) v ltac:(lia)) as [vs' Hs]. rewrite Hs.
+    unfold add_usize, usize_max, isize_max in *.
+    destruct (18446744073709551615 <? vlen s + 1) eqn:Eo; [lia|].
+    eexists. split; [reflexivity|]. pose proof (zset_inv _ _ _ _ Hs) as [_ Hl'].
+    split; [|split; cbn; lia].
+    unfold stk. cbn. replace (Z.to_nat (vlen s + 1)) with (S (Z.to_nat (vlen s))) by lia.
+    unfold zset in Hs. destruct ((vlen s <? 0) || (zlen (vals s) <=? vlen s)); [discriminate|].
+    apply (firstn_set_nth_snoc _ _ _ _ Hs).
+  - rewrite zset_none by lia. reflexivity.
+Qed.
+
+Lemma refine_peek cap s : vinv cap s ->
+  vs_peek s = match rev (stk s) with x :: _ => Some x | [] => None end.
+Proof.
+  intros [Hl Hn]. unfold vs_peek. destruct (0 <? vlen s) eqn:E.
+  - unfold stk. replace (Z.to_nat (vlen s)) with (S (Z.to_nat (vlen s - 1))) by lia.
+    destruct (zget_some (vals s) (vlen s - 1) ltac:(lia)) as [x Hx]. rewrite Hx.
+    unfold zget in Hx. destruct ((vlen s - 1 <? 0) || (zlen (vals s) <=? vlen s - 1)); [discriminate|].
+    pose proof (nth_error_split _ _ Hx) as (l1 & l2 & Hv & Hl1).
+    rewrite Hv. rewrite <- Hl1. replace (S (length l1)) with (length (l1 ++ [x])) by (rewrite app_length; cbn; lia).
+    replace (l1 ++ x :: l2) with ((l1 ++ [x]) ++ l2) by (rewrite <- app_assoc; reflexivity).
+    rewrite firstn_app, Nat.sub_diag, firstn_all. cbn [firstn]. rewrite app_nil_r, rev_app_distr. reflexivity.
+  - unfold stk. replace (Z.to_nat (vlen s)) with 0%nat by lia. reflexivity.
+Qed.
+
+Lemma refine_pop cap s ped : vinv cap s ->
+  match rev (stk s) with
+  | x :: r => exists s', vs_pop ped s = Some (s', Ok x) /\ stk s' = rev r /\ vinv cap s'
+  | [] => vs_pop ped s = Some (s, if ped then Err EUnderflow else Ok 0)
+  end.
+Proof.
+  intros H. pose proof (refine_peek cap s H) as Hp. pose proof (stk_len cap s H) as Hsl.
+  destruct H as [Hl Hn]. unfold vs_pop. rewrite Hp.
+  destruct (rev (stk s)) as [|x r] eqn:Er.
+  - destruct ped; reflexivity.
+  - assert (Hs : stk s = rev r ++ [x]) by (rewrite <- (rev_involutive (stk s)), Er; reflexivity).
+    assert (Hpos : 0 < vlen s) by (rewrite <- Hsl, Hs, zlen_app; unfold zlen; cbn; lia).
+    unfold sub_usize. destruct (vlen s <? 1) eqn:E; [lia|].
+    eexists. split; [reflexivity|]. split; [|split; cbn; lia].
+    unfold stk in *. cbn.
+    replace (Z.to_nat (vlen s)) with (S (Z.to_nat (vlen s - 1))) in Hs by lia.
+    rewrite <- (removelast_firstn (vals s)) by (unfold zlen in Hl; lia).
+    rewrite Hs. apply removelast_last.
+Qed.
+
+Lemma refine_clear s : exists s', vs_clear s = Some (s', Ok tt) /\ stk s' = [].
+Proof. eexists. split; [reflexivity|reflexivity]. Qed.
+
+Lemma value_stack_refines_list_partial_lemma : forall cap s ped v, cap <= isize_max -> vinv cap s ->
+  (if vlen s <? cap
+   then exists s', vs_push v s = Some (s', Ok tt) /\ stk s' = stk s ++ [v] /\ vinv cap s'
+   else vs_push v s = Some (s, Err EOverflow)) /\
+  vs_peek s = match rev (stk s) with x :: _ => Some x | [] => None end /\
+  match rev (stk s) with
+  | x :: r => exists s', vs_pop ped s = Some (s', Ok x) /\ stk s' = rev r /\ vinv cap s'
+  | [] => vs_pop ped s = Some (s, if ped then Err EUnderflow else Ok 0)
+  end /\
+  (exists s', vs_clear s = Some (s', Ok tt) /\ stk s' = []) /\
+  zlen (stk s) = vlen s.
+Proof.
+  intros cap s ped v Hc H. split; [apply refine_push; assumption|].
+  split; [apply (refine_peek cap); assumption|]. split; [apply refine_pop; assumption|].
+  split; [apply refine_clear|apply (stk_len cap); assumption].
+Qed.
